@@ -189,6 +189,12 @@ def source(ctx, i, rng, d):
                     ["clk_renamed_away"] * rng.choice([0, 1, 1])
                 ctx.count("clock_lists_edited")
         what += " (edited after import)"
+    if n is not None and ext == ".edf" and "EDIF.identifier" in n and n.name and rng.random() < 0.15:
+        # a netlist that was read from EDIF (it carries its identifier) and whose name was then set to the empty string: a name
+        # that is present - the writer defaults only an ABSENT one
+        n.name = ""
+        ctx.count("netlists_named_by_the_empty_string")
+        what += " (netlist name '')"
     if n is not None and ext == ".eblif" and rng.random() < 0.2:
         # instances need not have names either: written without .cname lines, nothing in the file needs them
         k_ = 0
